@@ -211,7 +211,7 @@ struct SrvEngine : public Engine
    }
 
    // C13 is stated for a client that started from the server's snapshot of that index: a foreign node, no content filters
-   bool idxPremise(const Client & c, const std::string & path) const {return (!c.usedFilter)&&(!c.tainted)&&(ownerOf(path) != c.sid);}
+   bool idxPremise(const Client & c, const std::string & path) const {(void) path; return (!c.usedFilter)&&(!c.tainted);}
 
    void sendMsg(int i, const MessageRef & m)
    {
@@ -328,7 +328,8 @@ struct SrvEngine : public Engine
             String np; (void) nodes[k]->GetNodePath(np);
             if (c.usedFilter) break;   // with a content filter the client may never have been sent the index snapshot the property starts from
             if (!pm.MatchesPath(np(), nodes[k]->GetData()(), nodes[k])) continue;
-            if (ownerOf(S(np)) == c.sid) continue;
+            // (the session's OWN indexed nodes count as well: index instructions go to every subscriber, the owner included, and a session
+            //  that has ever created an index is sent its own nodes in snapshots — _indexingPresent)
             std::vector<std::string> have; const Queue<DataNodeRef> * ix = nodes[k]->GetIndex();
             if (ix) for (uint32 j=0; j<ix->GetNumItems(); j++) have.push_back(S((*ix)[j]()->GetNodeName()));
             std::map<std::string, std::vector<std::string> >::const_iterator f = c.idx.find(S(np));
